@@ -143,6 +143,8 @@ def coq_request(method, case):
         label = case["label"]
         kind = label[5:] if label.startswith("body-") else ("malformed" if label.startswith("double-fault:") else "valid")
         cls = BODY_STATE.get(kind, "unknown")
+        if kind == "null" and any((not p["ctx"]) and p["loc"] == "body" and p["type"].startswith("[]") for p in method["params"]):
+            cls = "unknown"      # JSON null decodes to a nil slice: whether that passes is the validator's business
         if rq.get("body") is None:
             st = "BEmpty"
         elif cls == "good":
